@@ -9,9 +9,19 @@
 (* changed (`bkmay') and, for Copy, the pair that must be equal.  The harness  *)
 (* executes the sequence on every record type and on whole messages and        *)
 (* compares the real heap with these predictions after each step.              *)
+(*                                                                             *)
+(* Alphabet "copyto": the sequences that contain a CopyTo INTO A LIVE OBJECT,  *)
+(* over {Copy, Alias(original | latest; how = "all": shallow struct copy,      *)
+(* "one": one section assigned), CopyTo(a, b) for every ordered pair of live   *)
+(* objects whose target shares memory with nobody but its source, Mutate       *)
+(* (original | latest), Pack, Copy as read-only operation,                     *)
+(* Unpack}.  Slot 1 of an object is its root store (never shared by an alias), *)
+(* slot 2 its nested stores (shared by both kinds of alias).  Executed on      *)
+(* whole messages.                                                             *)
 EXTENDS Heap, GenBase
 
-CONSTANTS N, NSlots
+CONSTANTS N, NSlots,
+          Alphabet   \* "base" | "copyto"
 
 VARIABLES S, hist, nextc
 
@@ -26,17 +36,24 @@ U(c, i) == 1000 * i + 100 + c
 RECURSIVE SortedSeq(_)
 SortedSeq(s) == IF s = {} THEN <<>> ELSE LET m == CHOOSE x \in s : \A y \in s : x <= y IN <<m>> \o SortedSeq(s \ {m})
 
+SortedPairs(al) == LET prs == { <<a, b>> \in Obj \X Obj : a < b /\ {a, b} \in al }
+                        key(q) == 100 * q[1] + q[2]
+                        ks == SortedSeq({ key(q) : q \in prs }) IN
+                    [i \in 1..Len(ks) |-> << ks[i] \div 100, ks[i] % 100 >>]
+
 Init ==
   /\ S = [slots |-> [o \in Obj |-> IF o = 1 THEN [i \in 1..NSlots |-> i] ELSE <<>>],
           mem   |-> [r \in 1..(NSlots + 1) |-> r],
           bk    |-> [o \in Obj |-> 0],
           live  |-> {1},
-          buf   |-> NSlots + 1]
+          buf   |-> NSlots + 1,
+          al    |-> {}]
   /\ hist = <<>>
   /\ nextc = NSlots + 2
 
 Rec(opname, ro, x, y, slot, T, tgt, bkmay) ==
-  [op |-> opname, ro |-> ro, x |-> x, y |-> y, slot |-> slot,
+  [op |-> opname, ro |-> ro, x |-> x, y |-> y, slot |-> IF opname \in {"alias"} THEN 0 ELSE slot,
+   how |-> IF opname = "alias" THEN slot ELSE "",
    live  |-> SortedSeq(T.live),
    regs  |-> [o \in Obj |-> T.slots[o]],
    vals  |-> [o \in Obj |-> Value(T, o)],
@@ -45,7 +62,8 @@ Rec(opname, ro, x, y, slot, T, tgt, bkmay) ==
    chg   |-> SortedSeq({ o \in S.live : Value(T, o) # Value(S, o) }),
    tgt   |-> SortedSeq(tgt),
    bkmay |-> SortedSeq(bkmay),
-   eq    |-> IF opname = "copy" THEN <<y, x>> ELSE <<>>,
+   eq    |-> IF opname \in {"copy", "alias", "copyto"} THEN <<y, x>> ELSE <<>>,
+   al    |-> SortedPairs(T.al),
    disj  |-> Disjoint(T)]
 
 Do(opname, ro, x, y, slot, T, tgt, bkmay) ==
@@ -66,10 +84,25 @@ Unpack == /\ Obj \ S.live # {} /\ BufValid(S)
           /\ UNCHANGED nextc
 
 Mutate(x) == LET slot == 1 + (Len(hist) % NSlots)
-                 p == [x |-> x, r |-> S.slots[x][slot], c |-> nextc, b |-> S.bk[x]] IN
+                 r == S.slots[x][slot]
+                 p == [x |-> x, r |-> r, c |-> nextc, b |-> S.bk[x], pb |-> [o \in Sharers(S, x, r) |-> S.bk[o]]] IN
              /\ MutateShape(S, p)
-             /\ Do("mutate", "", x, 0, slot, MutatePost(S, p), {x}, {})
+             /\ Do("mutate", "", x, 0, slot, MutatePost(S, p), Targets(S, "mutate", p), {})
              /\ nextc' = nextc + 1
+
+\* the caller's shallow copy: slot 1 (the root store) is the new object's own, slot 2 is shared
+Alias(x, how) == /\ Obj \ S.live # {}
+                 /\ LET f == FreshSeq(S, Len(S.slots[x]))
+                        p == [x |-> x, y |-> NextObj(S), ns |-> [i \in 1..Len(f) |-> IF i >= 2 THEN S.slots[x][i] ELSE f[i]]] IN
+                    /\ AliasShape(S, p) /\ AliasDisc(S, p)
+                    /\ Do("alias", "", x, p.y, how, AliasPost(S, p), {}, {})
+                 /\ UNCHANGED nextc
+
+\* Msg.CopyTo into the live object t: new regions for everything
+CopyTo(x, t) == LET p == [x |-> x, t |-> t, ns |-> FreshSeq(S, Len(S.slots[x]))] IN
+                /\ CopyToShape(S, p) /\ CopyToDisc(S, p)
+                /\ Do("copyto", "", x, t, 0, CopyToPost(S, p), {t}, {t})
+                /\ UNCHANGED nextc
 
 Scribble == LET p == [c |-> Flip(S.mem[S.buf])] IN
             /\ ScribbleShape(S, p)
@@ -78,12 +111,26 @@ Scribble == LET p == [c |-> Flip(S.mem[S.buf])] IN
 
 RO(op) == LET x  == Latest(S)
               xs == IF op = "IsDuplicate" THEN {x, 1} ELSE {x}
-              p  == [op |-> op, xs |-> xs, nb |-> [o \in xs |-> S.bk[o]]] IN
+              p  == [op |-> op, xs |-> xs, nb |-> [o \in ROArgs(S, xs) |-> S.bk[o]]] IN
           /\ ROShape(S, p)
-          /\ Do("ro", op, x, IF op = "IsDuplicate" THEN 1 ELSE 0, 0, ROPost(S, p), {}, xs)
+          /\ Do("ro", op, x, IF op = "IsDuplicate" THEN 1 ELSE 0, 0, ROPost(S, p), {}, ROArgs(S, xs))
           /\ UNCHANGED nextc
 
-Next == /\ Len(hist) < N
+NextCopyTo ==
+        /\ Len(hist) < N
+        /\ \/ Copy(1)
+           \/ (Latest(S) # 1 /\ Copy(Latest(S)))
+           \/ \E how \in {"all", "one"} : Alias(1, how) \/ (Latest(S) # 1 /\ Alias(Latest(S), how))
+           \* (into targets that share memory with nobody but -- possibly -- the source: what a CopyTo that uses the target's
+           \*  storage again does to THIRD objects the caller aliased to the target is AMBIG, see Heap!CopyToDisc)
+           \/ \E a \in S.live, b \in S.live : a # b /\ Partners(S, {b}) \subseteq {a} /\ CopyTo(a, b)
+           \/ Mutate(1)
+           \/ (Latest(S) # 1 /\ Mutate(Latest(S)))
+           \/ RO("Pack") \/ RO("Copy")
+           \/ Unpack
+
+Next == IF Alphabet = "copyto" THEN NextCopyTo ELSE
+        /\ Len(hist) < N
         /\ \/ Copy(1)
            \/ (Latest(S) # 1 /\ Copy(Latest(S)))
            \/ Mutate(1)
@@ -95,5 +142,6 @@ Next == /\ Len(hist) < N
 \* every exported behaviour satisfies the specification's own invariants (a failure here is a spec bug)
 Sound == \A k \in 1..Len(hist) : hist[k].disj /\ (\A j \in 1..Len(hist[k].chg) : hist[k].chg[j] \in { hist[k].tgt[i] : i \in 1..Len(hist[k].tgt) })
 
-Out == IF Len(hist) = N THEN Emit([ops |-> hist]) ELSE TRUE
+HasCopyTo == \E k \in 1..Len(hist) : hist[k].op = "copyto"
+Out == IF Len(hist) = N /\ (Alphabet = "copyto" => HasCopyTo) THEN Emit([ops |-> hist]) ELSE TRUE
 =============================================================================
